@@ -794,7 +794,7 @@ def check(reg, tier):
     bounded_sweep(reg)
     from contracts import c10
     from vp.core import adopt
-    adopt(reg, c10._calc_theory_contract, "C10", only="_calc_theory")
+    adopt(reg, c10._calc_theory_contract, "C10", only="calc_theory")
     reg.assume("erf, exp and sqrt are uninterpreted with the monotonicity / inverse facts instantiated where used; doubles are "
                "reals; sqrt(2.0) is the float constant")
     reg.assume("conclusions about sums (weights sum to one, flat intensity unchanged, scale and background pass through "
